@@ -3,7 +3,7 @@ PROPS_VO = "Props/C06.vo"
 PROFILES = ["release"]
 RULE = ("harness c06: (a) GLWE / LWE secret-key encryption under controlled changes of plaintext, secret seed, error seed, mask seed "
         "(byte comparison of mask columns and body; the model encrypts the five input tuples itself), (b) standard GGLWE / switching / "
-        "automorphism / tensor / GGLWE->GGSW keys and GGSW: every cell reproduced by the model from (plaintext, secret, raw mask stream, "
+        "automorphism / tensor / GGLWE->GGSW / LWE switching / GLWE->LWE / LWE->GLWE keys, GGSW and the entries of a CGGI blind-rotation key: every cell reproduced by the model from (plaintext, secret, raw mask stream, "
         "replayed errors) and error_is_full checked by the oracle with the exact phase, (c) statistics over >= 2^14 coefficients per layout "
         "(two-sided variance band, chi-square on mask digits) as support")
 ASSUMPTIONS = ["release-mode (wrapping) integer semantics", "DFT-domain products exact inside the backend's magnitude domain (C07)",
